@@ -38,10 +38,11 @@ def rnd_index(rng, n):
 def measured_flags():
     """the two behaviours the translator measured on the current code (NV/gen/RtParams.v)"""
     s = open(os.path.join(vlib.COQ, 'NV', 'gen', 'RtParams.v')).read()
-    return dict(clone_struct_fixed='rt_clone_struct_fixed : bool := true' in s, slice_clamped='rt_slice_clamped : bool := true' in s)
+    return dict(clone_struct_fixed='rt_clone_struct_fixed : bool := true' in s, slice_clamped='rt_slice_clamped : bool := true' in s,
+                push_self_safe='rt_push_self_safe : bool := true' in s)
 
 
-FLAGS = dict(clone_struct_fixed=False, slice_clamped=False)
+FLAGS = dict(clone_struct_fixed=False, slice_clamped=False, push_self_safe=False)
 
 
 def gen_history(rng, maxlen, stats):
@@ -172,6 +173,105 @@ def gen_history(rng, maxlen, stats):
     return lines
 
 
+def gen_selfref_history(rng, maxlen, stats):
+    """History whose VALUE operands are elements of the SAME array (pushat / setat / pushpop for the typed families, pushse / setse
+    for struct arrays = the call the transpiler emits for (array_push xs (at xs i))), with the capacity tracked EXACTLY so that the
+    self-referential push is placed at length == capacity-1, capacity and capacity+1 of every growth step.  While the open finding
+    c20:dyn:push-own-struct-elem is present (FLAGS['push_self_safe'] false) the struct push at length == capacity is left to the
+    dedicated crash cases: the probe would die there."""
+    kind = rng.choice([1, 2, 3, 4, 5, 8, 6, 6])
+    k = KINDS.get(kind)
+    es = rng.choice([1, 2, 8, 16, 24, 40]) if kind == 6 else None
+    c0 = rng.choice([None, None, 7, 8, 9, 16, 17])
+    if c0 is None:
+        lines = ['new %d' % kind]; cap = 8
+    else:
+        lines = ['newcap %d %d' % (kind, c0)]; cap = max(8, c0)
+    n = 0
+    st = dict(n=0, cap=cap)
+    blob = lambda: ''.join('%02x' % rng.randrange(256) for _ in range(es))
+    tag = 'struct' if kind == 6 else k
+
+    def grow_if_full():
+        if st['n'] >= st['cap']:
+            st['cap'] *= 2
+
+    def fresh():
+        grow_if_full()
+        lines.append('pushs ' + blob() if kind == 6 else 'push %s %x' % (k, rnd_val(rng, k))); st['n'] += 1; stats['sr:fresh_push'] += 1
+
+    def cls():
+        if st['n'] == st['cap'] - 1: return 'cap-1'
+        if st['n'] == st['cap']: return 'cap'
+        if st['n'] == st['cap'] // 2 + 1 and st['cap'] > 8: return 'cap+1'
+        return 'other'
+
+    def selfpush():
+        c = cls()
+        if kind == 6 and c == 'cap' and not FLAGS['push_self_safe']:
+            stats['sr:pushse:cap:AVOIDED(open finding c20:dyn:push-own-struct-elem, replayed by the crash cases)'] += 1
+            return fresh()
+        i = rng.choice([0, st['n'] - 1, rng.randrange(st['n'])])
+        grow_if_full()
+        lines.append('pushse %d' % i if kind == 6 else 'pushat %s %d' % (k, i)); st['n'] += 1
+        stats['sr:%s:%s:%s' % ('pushse' if kind == 6 else 'pushat', tag, c)] += 1
+
+    L = rng.randrange(10, maxlen + 1)
+    for _ in range(rng.choice([2, 4])):
+        fresh()
+    while len(lines) < L:
+        r = rng.random()
+        if st['n'] == 0:
+            fresh(); continue
+        if r < 0.30:
+            want = rng.choice(['cap-1', 'cap', 'cap+1'])
+            target = {'cap-1': st['cap'] - 1, 'cap': st['cap'], 'cap+1': st['cap'] + 1}[want]
+            if target > 140:
+                target = st['cap'] // 2 + 1 if st['cap'] > 8 else 7
+            while st['n'] < target: fresh()
+            while st['n'] > target:
+                lines.append('pops %d' % es if kind == 6 else 'pop %s' % k); st['n'] -= 1
+            selfpush()
+            lines.append('gets %d' % (st['n'] - 1) if kind == 6 else 'get %s %d' % (k, st['n'] - 1))
+        elif r < 0.42:
+            selfpush()
+        elif r < 0.56:
+            i = rng.choice([0, st['n'] - 1, rng.randrange(st['n'])]); j = rng.choice([i, 0, st['n'] - 1, rng.randrange(st['n'])])
+            lines.append('setse %d %d' % (i, j) if kind == 6 else 'setat %s %d %d' % (k, i, j)); stats['sr:set_from_same:%s:%s' % (tag, 'i==j' if i == j else 'i!=j')] += 1
+        elif r < 0.64 and kind != 6:
+            lines.append('pushpop %s' % k); stats['sr:pushpop:%s:%s' % (tag, 'cap' if st['n'] - 1 == st['cap'] - 1 else 'other')] += 1
+        elif r < 0.72:
+            lines.append('pops %d' % es if kind == 6 else 'pop %s' % k); st['n'] -= 1
+        elif r < 0.78:
+            lines.append('rm %d' % rng.randrange(st['n'])); st['n'] -= 1
+        elif r < 0.82:
+            fresh()
+        elif r < 0.86:
+            a = rng.randrange(st['n'] + 1); b = rng.choice([0, 1, st['n'], 9, rng.randrange(st['n'] + 2)])
+            lines.append('slice %d %d' % (a, b)); m = max(0, min(st['n'], a + b) - a)
+            st['n'] = m; st['cap'] = 8
+            while st['cap'] < m: st['cap'] *= 2
+            stats['sr:slice'] += 1
+        elif r < 0.89 and (kind != 6 or FLAGS['clone_struct_fixed']):
+            lines.append('clone'); st['cap'] = max(8, st['n']); stats['sr:clone'] += 1
+        elif r < 0.92:
+            c = rng.choice([st['cap'] + 1, st['n'], 2 * st['cap'], 17]); lines.append('reserve %d' % c); st['cap'] = max(st['cap'], c)
+        elif r < 0.95:
+            lines.append('len')
+        elif r < 0.975:
+            # index outside the array as the SOURCE of the value: typed get asserts / get_struct answers NULL and push_struct asserts
+            i = rng.choice([-1, st['n'], st['n'] + 7])
+            lines.append('pushse %d' % i if kind == 6 else 'pushat %s %d' % (k, i)); stats['sr:source_index_out_of_range'] += 1; stats['abort_expected'] += 1
+            break
+        else:
+            i = rng.choice([-1, st['n']])
+            lines.append('setse 0 %d' % i if kind == 6 else 'setat %s 0 %d' % (k, i)); stats['sr:source_index_out_of_range'] += 1; stats['abort_expected'] += 1
+            break
+    stats['sr:histories'] += 1
+    stats['sr:kind:%s' % tag] += 1
+    return lines
+
+
 # histories at the border of defined behaviour, each run in its own probe process.  The first seven are the witnesses of the
 # REPAIRED findings c20:dyn:clone-struct (c3b7222) and c20:dyn:slice-overflow (9ae9f7a): the model now describes the repaired code,
 # so they must run to the end with the model's answers (a sanitizer death is a regression -> VIOLATION).  The last two are
@@ -184,6 +284,12 @@ CRASH_CASES = [
     ('c20:dyn:slice-overflow', ['new 1', 'push i 1', 'push i 2', 'slice 1 %d' % I64MAX]),
     ('c20:dyn:slice-overflow', ['new 2', 'push f 1', 'slice 5 %d' % I64MAX]),
     ('c20:dyn:slice-overflow', ['new 6', 'pushs 01', 'pushs 02', 'slice 2 %d' % (I64MAX - 1)]),
+    # OPEN finding (outside reviewer): push_struct whose source is an element of the same array, at length == capacity (8, 16, and after
+    # auto-promotion): the model says Crash while rt_push_self_safe is measured false
+    ('c20:dyn:push-own-struct-elem', ['new 6'] + ['pushs %02x07' % i for i in range(8)] + ['pushse 0']),
+    ('c20:dyn:push-own-struct-elem', ['new 6'] + ['pushs %02x0709' % i for i in range(16)] + ['pushse 15']),
+    ('c20:dyn:push-own-struct-elem', ['newcap 6 9'] + ['pushs aabbccdd'] * 9 + ['pushse 4']),
+    ('c20:dyn:push-own-struct-elem', ['new 1'] + ['pushs 0102030405060708'] * 8 + ['pushse 7']),
     (None, ['new 1', 'push i 1', 'reserve 1152921504606846976']),          # capacity*elem_size overflows int64: caller-controlled size
     (None, ['newcap 2 2305843009213693952']),
 ]
@@ -224,6 +330,8 @@ def dyn_correspondence(ck, probe, ref):
     nh, maxlen = (150, 5000) if ck.thorough else (600, 200)
     for _ in range(nh):
         hist.append(gen_history(rng, maxlen, stats))
+    for _ in range(2500 if ck.thorough else 300):
+        hist.append(gen_selfref_history(rng, 200 if rng.random() < 0.9 or not ck.thorough else 1500, stats))
     if ck.thorough:
         for _ in range(3000):
             hist.append(gen_history(rng, 200, stats))
@@ -444,6 +552,7 @@ def run(ck):
     b = ck.build('plain')
     ck.gen(['gen_rtparams'])
     FLAGS.update(measured_flags())
+    c20_native.PUSH_OWN_STRUCT_SAFE = FLAGS['push_self_safe']
     ck.extra['measured_flags'] = dict(FLAGS)
     ck.prove()
     ref = ck.nvref('c20')
@@ -459,7 +568,9 @@ def run(ck):
     ck.extra['exhaustive'] = False
     ck.cov['rule'] = ('dyn: generated histories over all 8 element kinds (typed push/pop/get/set, remove_at, clear, reserve, clone, emitted '
                       'nl_array_slice, struct push/get/set/pop incl. auto-promotion, wrong-type and wrong-size calls), indices on both sides of '
-                      'every bound, lengths driven across the growth points 8/9/16/17/32/33; state (kind, elem_size, length, capacity, contents) '
+                      'every bound, lengths driven across the growth points 8/9/16/17/32/33; plus self-referential histories (value operand = element of the SAME '
+                      'array: pushat/setat/pushpop for every typed family, pushse/setse = the emitted struct calls) placed at length == capacity-1, capacity, '
+                      'capacity+1 of every growth step with the capacity tracked exactly; state (kind, elem_size, length, capacity, contents) '
                       'compared after every operation; non-trivial = history of >= 4 ops with a non-empty array; distinct = distinct history.  '
                       'gc: generated alloc/retain/release/is_managed/collect histories (well-behaved with raw retain; and with stale releases of freed '
                       'handles + guarded retain) on three engines (ASan, ASan without quarantine = address reuse, plain build); list order, reference '
